@@ -177,7 +177,7 @@ func main() {
 		tierDef = "quick"
 	}
 	tier := flag.String("tier", tierDef, "quick|thorough")
-	only := flag.String("only", "", "comma separated subset of parts: batcher,polling,ws,wt,wte2e")
+	only := flag.String("only", "", "comma separated subset of parts: batcher,polling,ws,wt,wte2e,cli")
 	replay := flag.String("replay", "", "replay file written by an earlier run")
 	flag.Parse()
 
@@ -190,7 +190,7 @@ func main() {
 	}
 
 	r.Rule = "batcher: one evaluation = one (packet vector, maxPayload) pair pushed through the real clientSocket.Send; vectors of 1..6 packets (quick: 1..5), data sizes {0,1,2,3,4,6,9}, text/binary in the first two positions, maxPayload 0..(encoded size+8); non-trivial = the batcher split the vector at least once. " +
-		"polling/ws/wt/wte2e: one evaluation = one (limit, message size, declaration or direction or chunking or text/binary) case on a fresh server (wte2e: a fresh WebTransport session on the server of its limit configuration); non-trivial = the case must trigger or just miss the limit mechanism (size >= limit-1) or lies around the WebSocket library's 32 KiB default (size >= 32767). All matrices are run completely."
+		"polling/ws/wt/wte2e: one evaluation = one (limit, message size, declaration or direction or chunking or text/binary) case on a fresh server (wte2e: a fresh WebTransport session on the server of its limit configuration); non-trivial = the case must trigger or just miss the limit mechanism (size >= limit-1) or lies around the WebSocket library's 32 KiB default (size >= 32767). All matrices are run completely. cli: one evaluation = one burst (limit, number of packets, packet size) handed to the real client's Send over polling against the real server, every POST measured at the HTTP round trip; non-trivial = the burst does not fit one request."
 
 	want := func(p string) bool {
 		if *only == "" {
@@ -213,6 +213,7 @@ func main() {
 		{"ws", runWS},
 		{"wt", runWT},
 		{"wte2e", runWTE2E},
+		{"cli", runCli},
 	}
 	stats := map[string]partStats{}
 	var smu sync.Mutex
@@ -310,6 +311,8 @@ func doReplay(c *ctx, path string) {
 		st = replayWS(c, f.Replay)
 	case "wt":
 		st = replayWT(c, f.Replay)
+	case "cli":
+		st = replayCli(c, f.Replay)
 	case "wte2e":
 		st = replayWTE2E(c, f.Replay)
 	default:
